@@ -29,6 +29,8 @@ import (
 	"github.com/ethereum/go-ethereum/common"
 	"github.com/ethereum/go-ethereum/crypto"
 
+	"github.com/haqq-network/haqq/app"
+	haqqtypes "github.com/haqq-network/haqq/types"
 	coinomicstypes "github.com/haqq-network/haqq/x/coinomics/types"
 	erc20types "github.com/haqq-network/haqq/x/erc20/types"
 	evmtypes "github.com/haqq-network/haqq/x/evm/types"
@@ -48,7 +50,10 @@ import (
 var (
 	DirtyAddr = world.ContractAddr(0x50)
 	QueryAddr = world.ContractAddr(0x51)
-	VestKey   = 50 // key index of the account that becomes a vesting account in some templates
+	// BlockHashAddr: on its first call remembers the height of the previous block; on every call stores
+	// BLOCKHASH(that height) in slot 0
+	BlockHashAddr = world.ContractAddr(0x52)
+	VestKey       = 50 // key index of the account that becomes a vesting account in some templates
 )
 
 func dirtyCode() []byte {
@@ -100,6 +105,24 @@ func NewFix() *Fix {
 		Contracts: []world.GenesisContract{
 			{Addr: DirtyAddr, Code: dirtyCode(), Balance: 1000},
 			{Addr: QueryAddr, Code: queryCode(bankSel)},
+			{Addr: BlockHashAddr, Code: common.FromHex("600154806010575060014303806001555b4060005500")},
+		},
+		// exact gas accounting (no floor at half the gas limit): a difference in gas metering between two
+		// nodes shows in the responses
+		FeeMarket: func() *feemarkettypes.Params {
+			fm := feemarkettypes.DefaultParams()
+			fm.NoBaseFee = true
+			fm.MinGasPrice = sdk.ZeroDec()
+			fm.MinGasMultiplier = sdk.ZeroDec()
+			return &fm
+		}(),
+		// a short header history: what BLOCKHASH can still see is pruned within a few blocks
+		Patch: func(a *app.Haqq, gs haqqtypes.GenesisState) haqqtypes.GenesisState {
+			var sg stakingtypes.GenesisState
+			a.AppCodec().MustUnmarshalJSON(gs[stakingtypes.ModuleName], &sg)
+			sg.Params.HistoricalEntries = 3
+			gs[stakingtypes.ModuleName] = a.AppCodec().MustMarshalJSON(&sg)
+			return gs
 		},
 		UnbondingTime: 20 * time.Second,
 		// 3 units of consensus power each: an undelegation or a 5% slash changes a validator's power
@@ -761,6 +784,10 @@ func LifecycleChains(tmpl []Template, nBase int) []Plan {
 	chain("liquidate", "erc20SendToModule", "govToggleLiquid0", "erc20SendToModule", "redeemAll")
 	chain("evmCreate", "govEvmParams", "evmCreate", "evmBankQuery", "pcDelegate")
 	chain("evmTransfer", "govFeemarketParams", "evmTransfer", "evmDirtyCall", "evmTransfer")
+	// the same earlier block hash read twice, the second time after its header left the (short) history
+	if i, ok := ix["evmBlockHash"]; ok {
+		out = append(out, Plan{Name: "chain:evmBlockHash>5 blocks>evmBlockHash", Blocks: [][]int{{i}, {}, {}, {}, {}, {}, {i}}, Tail: 2})
+	}
 	// two day-epoch boundaries, the second one hit by a block only a few seconds past the exact end
 	// (time-driven BeginBlock logic that a node may have cached differently)
 	day := 24 * time.Hour
@@ -797,7 +824,11 @@ func StateShapeTemplates() []Template {
 	lo := Template{Name: "daoFundLiquidOnly", Build: func(w *world.World, _ precomp.ABIs) [][]byte {
 		return [][]byte{cosmosTx(w, 2, ucdaotypes.NewMsgFund(coins("aLIQUID75", 5), w.Addrs[2]))}
 	}}
-	return []Template{vc, lo}
+	bh := Template{Name: "evmBlockHash", Build: func(w *world.World, _ precomp.ABIs) [][]byte {
+		to := BlockHashAddr
+		return [][]byte{ethTx(w, 3, &to, 0, nil, 100000, 0)}
+	}}
+	return []Template{vc, lo, bh}
 }
 
 // AdversarialTemplates are histories aimed at the accounting invariants: pushing coins into the
